@@ -512,10 +512,13 @@ func exactCountCases() []ExactCount {
 // ---- (d) interleaving -------------------------------------------------------
 
 type Workload struct {
-	Expected [][]string `json:"expected_in_parent,omitempty"` // cold starts: filled in by the parent before the children run
-	Procs  int     `json:"gomaxprocs"`
-	Rounds int     `json:"rounds"`
-	G      [][]WOp `json:"goroutines"`
+	// cold starts: the parent's results of the same calls, filled in before the children run. BStr, not string: the
+	// results may contain arbitrary bytes (an error that quotes an invalid abbreviation), which encoding/json would
+	// replace by U+FFFD on the way to the child
+	Expected [][]gen.BStr `json:"expected_in_parent,omitempty"`
+	Procs    int        `json:"gomaxprocs"`
+	Rounds   int        `json:"rounds"`
+	G        [][]WOp    `json:"goroutines"`
 }
 
 func (w Workload) expected(shared []adapt.Obj) [][]string {
@@ -672,8 +675,8 @@ func runWorkloadConcurrentFirst(w Workload) error {
 				return fmt.Errorf("cold start: goroutine %d call %d %s(v%s %q) made concurrently as one of the first calls of the process returned %q, the same call made afterwards returns %q", g, i, op.Kind, spec.Versions[op.Ver%4].Name, string(op.S), got[g][i], want[g][i])
 			}
 			// what the parent process (other GOMAXPROCS, other CPU set, long warmed up) got for the same call
-			if g < len(w.Expected) && i < len(w.Expected[g]) && got[g][i] != w.Expected[g][i] {
-				return fmt.Errorf("cold start: goroutine %d call %d %s(v%s %q) returns %q in this fresh process (GOMAXPROCS=%d at start, %d CPUs) and %q in the parent process", g, i, op.Kind, spec.Versions[op.Ver%4].Name, string(op.S), got[g][i], runtime.GOMAXPROCS(0), runtime.NumCPU(), w.Expected[g][i])
+			if g < len(w.Expected) && i < len(w.Expected[g]) && got[g][i] != string(w.Expected[g][i]) {
+				return fmt.Errorf("cold start: goroutine %d call %d %s(v%s %q) returns %q in this fresh process (GOMAXPROCS=%d at start, %d CPUs) and %q in the parent process", g, i, op.Kind, spec.Versions[op.Ver%4].Name, string(op.S), got[g][i], runtime.GOMAXPROCS(0), runtime.NumCPU(), string(w.Expected[g][i]))
 			}
 		}
 	}
@@ -708,7 +711,14 @@ func checkCold(w Workload) error {
 	os.MkdirAll(dir, 0o755)
 	coldSeq++
 	path := filepath.Join(dir, fmt.Sprintf("cold-%d-%d-%d.json", os.Getpid(), env.Shard, coldSeq))
-	w.Expected = w.expected(nil) // the results of the same calls in this (the parent) process
+	w.Expected = nil
+	for _, row := range w.expected(nil) { // the results of the same calls in this (the parent) process
+		var r []gen.BStr
+		for _, x := range row {
+			r = append(r, gen.BStr(x))
+		}
+		w.Expected = append(w.Expected, r)
+	}
 	b, _ := json.Marshal(w)
 	if err := os.WriteFile(path, b, 0o644); err != nil {
 		return nil
